@@ -68,7 +68,7 @@ Named(ok, name) == ok \/ ~PrintT("MODELFAIL " \o name)
 
 Check == idx > 0 =>
   LET x == PoolSeq[bucket]  y == PoolSeq[idx]
-      bin(op) == LET adm == IF op \in ArithOps THEN Arith(op, x, y) ELSE {BoolV(CmpHolds(op, CmpD(x, y)))} IN
+      bin(op) == LET adm == IF op \in ArithOps THEN DArith(op, x, y) ELSE {BoolV(CmpHolds(op, CmpD(x, y)))} IN
                  { [expr |-> Lit(x) \o OpCps(op) \o Lit(y), doc |-> NullV, adm |-> adm, carriers |-> <<>>],
                    [expr |-> <<97>> \o OpCps(op) \o <<98>>, doc |-> DocAB(x, y), adm |-> adm, carriers |-> <<"json", "json">>],
                    [expr |-> <<97>> \o OpCps(op) \o <<98>>, doc |-> DocAB(x, y), adm |-> adm, carriers |-> <<"decimal", "decimal">>],
@@ -96,6 +96,6 @@ Check == idx > 0 =>
       case == [p |-> Prop, kind |-> "search", multi |-> all]
   IN /\ Emit => PrintT("CASE " \o ToJson(case))
      \* sanity of the oracle on this pair
-     /\ Named(Arith("+", x, y) = Arith("+", y, x) /\ Arith("*", x, y) = Arith("*", y, x), "Commutative")
+     /\ Named(DArith("+", x, y) = DArith("+", y, x) /\ DArith("*", x, y) = DArith("*", y, x), "Commutative")
      /\ Named(CmpD(x, y) = 0 - CmpD(y, x), "CmpAntisymmetric")
 =============================================================================
